@@ -113,6 +113,7 @@ CONF = {
     "rule": "one segment per life of the ConfigMap handler (reset, then ConfigMap events each followed by getNodeSLOSpec for "
             "every node); distinct by content; non-trivial = at least one checked event",
     "assumptions": [
+        "before the observed nodes' specs are computed, a twin of every observed node (same labels, a node-bandwidth annotation of its own) has its spec computed and discarded; the annotation is never put on an observed node",
         "a 'field' is a leaf of the section's JSON document: scalars, quantities, int-or-strings and LISTS are leaves (a list is "
         "set and delivered as a whole); objects and string-keyed maps are interior (merged key by key)",
         "a layer 'sets' a field when its JSON text contains the key with a non-null value; explicit nulls, empty strings for "
